@@ -398,7 +398,10 @@ fn read_std(reader: &mut BinReader, emitter: &impl Emitter, format: &dyn FileFor
             })?;
             Ok((key, value))
         }).collect::<ReadResult<IndexMap<_, _>>>()?;
-    assert_eq!(num_quads, objects.values().map(|x| x.quads.len()).sum::<usize>());
+    let actual_num_quads = objects.values().map(|x| x.quads.len()).sum::<usize>();
+    if num_quads != actual_num_quads {
+        return Err(emitter.emit(error!("quad count in header ({num_quads}) does not match the objects ({actual_num_quads})")));
+    }
 
     let instances = {
         reader.seek_to(start_pos + instances_offset)?;
@@ -528,7 +531,7 @@ fn read_quad(f: &mut BinReader, emitter: &impl Emitter) -> ReadResult<Option<Qua
     let anm_script = f.read_u16()?;
     match f.read_u16()? {
         0 => {},  // This word is zero in the file, and used to store an index in-game.
-        s => return Err(emitter.emit(warning!("unexpected data in quad index field: {s:#04x}"))),
+        s => return Err(emitter.emit(error!("unexpected data in quad index field: {s:#04x}"))),
     };
 
     Ok(Some(Quad {
@@ -751,14 +754,16 @@ impl LanguageHooks for StdHooks06 {
 impl InstrFormat for StdHooks06 {
     fn instr_header_size(&self) -> usize { 8 }
 
-    fn read_instr(&self, f: &mut BinReader, _: &dyn Emitter) -> ReadResult<ReadInstr> {
+    fn read_instr(&self, f: &mut BinReader, emitter: &dyn Emitter) -> ReadResult<ReadInstr> {
         let time = f.read_i32()?;
         let opcode = f.read_i16()?;
         let argsize = f.read_u16()?;
         if opcode == -1 {
             return Ok(ReadInstr::Terminal)
         }
-        assert_eq!(argsize, 12);  // FIXME make error if < 12, warning if > 12
+        if argsize != 12 {
+            return Err(emitter.as_sized().emit(error!("bad instruction argument size ({} != 12)", argsize)));
+        }
 
         let args_blob = f.read_byte_vec(12)?;
         Ok(ReadInstr::Instr(RawInstr { time, opcode: opcode as _, param_mask: 0, args_blob, ..RawInstr::DEFAULTS }))
@@ -792,7 +797,7 @@ impl LanguageHooks for StdHooks10 {
 impl InstrFormat for StdHooks10 {
     fn instr_header_size(&self) -> usize { 8 }
 
-    fn read_instr(&self, f: &mut BinReader, _: &dyn Emitter) -> ReadResult<ReadInstr> {
+    fn read_instr(&self, f: &mut BinReader, emitter: &dyn Emitter) -> ReadResult<ReadInstr> {
         let time = f.read_i32()?;
         let opcode = f.read_i16()?;
         let size = f.read_u16()? as usize;
@@ -800,7 +805,10 @@ impl InstrFormat for StdHooks10 {
             return Ok(ReadInstr::Terminal)
         }
 
-        let args_blob = f.read_byte_vec(size - self.instr_header_size())?;
+        let args_size = size.checked_sub(self.instr_header_size()).ok_or_else(|| {
+            emitter.as_sized().emit(error!("bad instruction size ({} < {})", size, self.instr_header_size()))
+        })?;
+        let args_blob = f.read_byte_vec(args_size)?;
         Ok(ReadInstr::Instr(RawInstr { time, opcode: opcode as u16, param_mask: 0, args_blob, ..RawInstr::DEFAULTS }))
     }
 
